@@ -1,9 +1,10 @@
 ------------------------------ MODULE C10_Rearr ------------------------------
 (* S-specification for C10: the REARRANGEMENT MACHINE.                                                  *)
 (*   state   : mode  -- "arith" | "conj" | "disj" | "nnf"                                                *)
-(*             seed  -- the expression the orbit started from (HOL term, codec encoding); its type is    *)
-(*                      nat, int or real for "arith" and bool otherwise                                  *)
-(*             e     -- the current rearrangement of seed                                                *)
+(*             ty    -- nat, int or real for "arith" and bool otherwise                                   *)
+(*             cls   -- the class of the orbit, fixed when the orbit starts: the polynomial (arith), the *)
+(*                      member set (conj, disj), the starting formula (nnf)                              *)
+(*             e     -- the current expression (HOL term, codec encoding)                                *)
 (*   actions : at any position reachable through arithmetic (resp. /\ , \/ , ~) operators:               *)
 (*             Comm, Assoc (both ways), Distrib (left/right), Factor (left/right), AddZero / DropZero,   *)
 (*             MulOne / DropOne, FoldNum / SplitNum, SucPlus, SubNeg / NegMul / NegNeg / NegAdd (types   *)
@@ -11,9 +12,9 @@
 (*             action looks inside it), PowUnfold / PowFold, Dup / Dedup (conj, disj), DeMorgan / DNeg   *)
 (*   property: every action preserves the polynomial PolyOf(e) (arith), the member set and the truth     *)
 (*             table (conj / disj), the truth table (nnf); every state is well-typed at the seed's type  *)
-(* TLC explores the orbits of the seeds (one representative per polynomial among all +,* trees with at   *)
-(* most SeedLeaves leaves, plus hand-picked seeds with - uminus ^ Suc and opaque atoms) as the reachable *)
-(* state space.  C10_RearrEmit computes the same orbits as closures and writes them as vectors.          *)
+(* TLC explores the orbits of the seeds (all +,* trees with at most SeedLeaves leaves, plus hand-picked  *)
+(* seeds with - uminus ^ Suc and opaque atoms) as the reachable state space; the dump of the reachable   *)
+(* states (-dump) is the vector file: the members of one orbit are the states with the same (mode,ty,cls).*)
 EXTENDS C10_Laws
 
 CONSTANTS SeedLeaves,     \* arithmetic seeds: +,* trees with at most this many leaves
@@ -111,20 +112,19 @@ NnfSteps(t) == NnfRoot(t) \cup
    THEN { Op2(t[2][2], s, A2(t)) : s \in NnfSteps(A1(t)) } \cup { Op2(t[2][2], A1(t), s) : s \in NnfSteps(A2(t)) }
    ELSE IF IsOp1(t, NegC) THEN { Neg(s) : s \in NnfSteps(t[3]) } ELSE {})
 
-\* ------------------------------------------------------------------ one step of the machine (size-bounded)
-Steps(mode, seed, x) ==
-  CASE mode = "arith" -> LET T == TypeOf(seed, <<>>) IN { y \in ArithSteps(x, T) : LeafCount(y, T) <= MaxLeaves /\ Mag(y, T) < 10000 }
-    [] mode = "conj" -> { y \in ACSteps(x, ConjC) : ACLeaves(y, ConjC) <= MaxMembers }
-    [] mode = "disj" -> { y \in ACSteps(x, DisjC) : ACLeaves(y, DisjC) <= MaxMembers }
-    [] mode = "nnf" -> { y \in NnfSteps(x) : Size(y) <= MaxNnfSize }
+\* ------------------------------------------------------------------ one step of the machine (growth is size-bounded)
+Steps(m, T, x) ==
+  CASE m = "arith" -> LET n == LeafCount(x, T) IN
+                      { y \in ArithSteps(x, T) : (LeafCount(y, T) <= MaxLeaves \/ LeafCount(y, T) <= n) /\ Mag(y, T) < 10000 }
+    [] m = "conj" -> { y \in ACSteps(x, ConjC) : ACLeaves(y, ConjC) <= MaxMembers }
+    [] m = "disj" -> { y \in ACSteps(x, DisjC) : ACLeaves(y, DisjC) <= MaxMembers }
+    [] m = "nnf" -> { y \in NnfSteps(x) : Size(y) <= MaxNnfSize \/ Size(y) <= Size(x) }
 
 \* ------------------------------------------------------------------ seeds
 ArithLeaves(T) == { V("x", T), V("y", T), Num(T, 0), Num(T, 1), Num(T, 2) } \cup (IF Rich THEN { V("z", T), Num(T, 3) } ELSE {})
 RECURSIVE Trees(_,_)
 Trees(n, T) == IF n = 1 THEN ArithLeaves(T)
                ELSE UNION { { Op2(c, a, b) : c \in {PlusC(T), TimesC(T)}, a \in Trees(k, T), b \in Trees(n - k, T) } : k \in 1..(n - 1) }
-\* one representative per polynomial
-Reps(S, T) == LET ps == { <<PolyOf(x, T), x>> : x \in S } IN { (CHOOSE pr \in ps : pr[1] = p)[2] : p \in { pr[1] : pr \in ps } }
 Special(T) ==
   LET x == V("x", T) y == V("y", T) z == V("z", T) IN
   IF T = NatT THEN { Plus(T, Suc(x), y), Times(T, x, Suc(y)), Suc(Suc(x)),
@@ -137,40 +137,48 @@ Special(T) ==
        \cup (IF Rich THEN { Minus(T, Times(T, x, y), Times(T, y, x)), Times(T, Plus(T, x, OneC(T)), Minus(T, x, OneC(T))),
                             Plus(T, Times(T, x, Times(T, x, y)), Times(T, x, y)), Um(T, Minus(T, x, Um(T, y))) } ELSE {})
        \cup (IF Rich /\ T = RealT THEN { PowN(T, Plus(T, x, OneC(T)), 3), Times(T, PowN(T, Plus(T, x, y), 2), x) } ELSE {})
-ArithSeeds(T) == Reps(UNION { Trees(n, T) : n \in 1..SeedLeaves }, T) \cup Special(T)
+ArithSeeds(T) == UNION { Trees(n, T) : n \in 1..SeedLeaves } \cup Special(T)
 
 bA == V("A", BoolT)  bB == V("B", BoolT)  bC == V("C", BoolT)
 Lits == { bA, bB, Neg(bA), TrueC, FalseC, Imp(bA, bB) } \cup (IF Rich THEN { bC, Neg(bB), Disj(bA, bC) } ELSE {})
-\* a right-nested chain over the members of M in the order of SetToSeq (one seed per member set)
+\* one chain per member set (in the order TLC enumerates the set); the other arrangements are reached by the actions
 RECURSIVE Chain(_,_)
 Chain(c, M) == IF Cardinality(M) = 1 THEN CHOOSE m \in M : TRUE
                ELSE LET m == CHOOSE y \in M : TRUE IN Op2(c, m, Chain(c, M \ {m}))
-MemberSets == { M \in SUBSET Lits : Cardinality(M) >= 1 /\ Cardinality(M) <= PropMembers }
+\* a member of a disjunction is not itself a disjunction
+Pool(c) == IF c = DisjC THEN Lits \ { Disj(bA, bC) } ELSE Lits
+MemberSets(c) == { M \in SUBSET Pool(c) : Cardinality(M) >= 1 /\ Cardinality(M) <= PropMembers }
 NnfSeeds == { Neg(Conj(bA, bB)), Neg(Disj(bA, Neg(bB))), Neg(Neg(bA)), Neg(Conj(bA, Disj(bB, bA))),
               Conj(Neg(Disj(bA, bB)), bA), Neg(TrueC), Disj(Neg(FalseC), bA) }
             \cup (IF Rich THEN { Neg(Conj(Disj(bA, bB), Neg(bC))), Neg(Disj(Conj(bA, bB), Conj(Neg(bA), bC))), Neg(Conj(Imp(bA, bB), bA)) } ELSE {})
 SeedSet == { <<"arith", s>> : s \in ArithSeeds(NatT) \cup ArithSeeds(IntT) \cup ArithSeeds(RealT) }
-           \cup { <<"conj", Chain(ConjC, M)>> : M \in MemberSets } \cup { <<"disj", Chain(DisjC, M)>> : M \in MemberSets }
+           \cup { <<"conj", Chain(ConjC, M)>> : M \in MemberSets(ConjC) } \cup { <<"disj", Chain(DisjC, M)>> : M \in MemberSets(DisjC) }
            \cup { <<"nnf", s>> : s \in NnfSeeds }
+ClassOf(m, T, x) == CASE m = "arith" -> PolyOf(x, T) [] m = "conj" -> MemberSet(x, ConjC) [] m = "disj" -> MemberSet(x, DisjC) [] m = "nnf" -> {x}
 
 \* ------------------------------------------------------------------ the machine
-VARIABLES mode, seed, e
-vars == <<mode, seed, e>>
-Init == \E p \in SeedSet : mode = p[1] /\ seed = p[2] /\ e = p[2]
-Next == /\ e' \in Steps(mode, seed, e)
-        /\ UNCHANGED <<mode, seed>>
+VARIABLES mode, ty, cls, e
+vars == <<mode, ty, cls, e>>
+Init == \E p \in SeedSet : /\ mode = p[1] /\ e = p[2] /\ ty = TypeOf(p[2], <<>>)
+                           /\ cls = ClassOf(p[1], TypeOf(p[2], <<>>), p[2])
+Next == /\ e' \in Steps(mode, ty, e)
+        /\ UNCHANGED <<mode, ty, cls>>
 Spec == Init /\ [][Next]_vars
 
 \* ------------------------------------------------------------------ properties
-TyOfSeed == TypeOf(seed, <<>>)
 TypeInv == /\ mode \in {"arith", "conj", "disj", "nnf"}
-           /\ TypeOf(e, <<>>) = TyOfSeed
-           /\ (mode = "arith") = (TyOfSeed \in NumTypes)
-           /\ (mode # "arith") => TyOfSeed = BoolT
-PolyPreserved == mode = "arith" => PolyExaminable(e, TyOfSeed) /\ PolyOf(e, TyOfSeed) = PolyOf(seed, TyOfSeed)
-MembersPreserved == /\ mode = "conj" => MemberSet(e, ConjC) = MemberSet(seed, ConjC)
-                    /\ mode = "disj" => MemberSet(e, DisjC) = MemberSet(seed, DisjC)
-TablePreserved == mode # "arith" => PropExaminable(e, seed) /\ SameTable(e, seed)
+           /\ TypeOf(e, <<>>) = ty
+           /\ (mode = "arith") = (ty \in NumTypes)
+           /\ (mode # "arith") => ty = BoolT
+PolyPreserved == mode = "arith" => PolyExaminable(e, ty) /\ PolyOf(e, ty) = cls
+MembersPreserved == /\ mode = "conj" => MemberSet(e, ConjC) = cls
+                    /\ mode = "disj" => MemberSet(e, DisjC) = cls
+\* the truth table is a function of the class
+RECURSIVE FoldSet(_,_,_)
+FoldSet(c, M, unit) == IF M = {} THEN unit ELSE LET m == CHOOSE y \in M : TRUE IN Op2(c, m, FoldSet(c, M \ {m}, unit))
+ClassFormula == CASE mode = "conj" -> FoldSet(ConjC, cls, TrueC) [] mode = "disj" -> FoldSet(DisjC, cls, FalseC)
+                  [] mode = "nnf" -> CHOOSE x \in cls : TRUE [] OTHER -> TrueC
+TablePreserved == mode # "arith" => PropExaminable(e, ClassFormula) /\ SameTable(e, ClassFormula)
 \* no action of the machine looks inside an opaque atom
-AtomsPreserved == mode = "arith" => AtomsOf(e, TyOfSeed) \subseteq AtomsOf(seed, TyOfSeed)
+AtomsPreserved == mode = "arith" => AtomsOf(e, ty) \subseteq UNION { MAtoms(m) : m \in Monos(cls) } \cup { a \in AtomsOf(e, ty) : a[1] = "var" }
 =============================================================================
